@@ -352,6 +352,50 @@ func checkC08(c *Ctx) {
 			}
 		})
 		r.Check(found, "C08.dup-filter", key, p.IPos(w), "dominated by GetLine(Len()-1) on the written source", "no dominating read of this source's most recent entry: duplicates are not filtered per source")
+		// the duplicate test compares both texts up to surrounding whitespace:
+		// TrimSpace(<that GetLine result>) == TrimSpace(<the accepted line>)
+		okCmp := false
+		why := "no comparison between the last entry and the accepted line found"
+		eachInstr(W, func(in ssa.Instruction) {
+			bo, ok := in.(*ssa.BinOp)
+			if !ok || (bo.Op != token.EQL && bo.Op != token.NEQ) {
+				return
+			}
+			isLast := func(v ssa.Value) (bool, bool) { // (is the last entry, trimmed)
+				trimmed := false
+				if cl, ok := v.(*ssa.Call); ok && calleeName(cl) == "strings.TrimSpace" {
+					trimmed = true
+					v = cl.Call.Args[0]
+				}
+				if ex, ok := v.(*ssa.Extract); ok && ex.Index == 0 {
+					if g, ok := ex.Tuple.(*ssa.Call); ok && isInvoke(g, "history.Source", "GetLine") && g.Call.Value == recv {
+						return true, trimmed
+					}
+				}
+				return false, false
+			}
+			isLine := func(v ssa.Value) (bool, bool) {
+				trimmed := false
+				if cl, ok := v.(*ssa.Call); ok && calleeName(cl) == "strings.TrimSpace" {
+					trimmed = true
+					v = cl.Call.Args[0]
+				}
+				ok, _ := derivesFromLine(v, false)
+				return ok, trimmed
+			}
+			for _, pair := range [][2]ssa.Value{{bo.X, bo.Y}, {bo.Y, bo.X}} {
+				l1, t1 := isLast(pair[0])
+				l2, t2 := isLine(pair[1])
+				if l1 && l2 {
+					if t1 && t2 {
+						okCmp = true
+					} else {
+						why = fmt.Sprintf("the duplicate test does not trim both sides (last entry trimmed: %v, accepted line trimmed: %v): a line differing from the last entry only by surrounding whitespace is recorded again", t1, t2)
+					}
+				}
+			}
+		})
+		r.Check(okCmp, "C08.dup-filter", key+":trimmed-compare", p.IPos(w), "TrimSpace(last) == TrimSpace(line)", why)
 	}
 
 	// ---- limit polarity (K4)
@@ -373,9 +417,21 @@ func checkC08(c *Ctx) {
 		tn, f, ok := fieldOf(u.X)
 		return ok && tn == "history.Sources" && f == "maxEntries"
 	}
+	var writeRecv ssa.Value
+	if len(writes) > 0 {
+		writeRecv = writes[0].Common().Value
+	}
+	otherLen := false
 	isLen := func(v ssa.Value) bool {
 		cl, ok := v.(*ssa.Call)
-		return ok && isInvoke(cl, "history.Source", "Len")
+		if !ok || !isInvoke(cl, "history.Source", "Len") {
+			return false
+		}
+		if cl.Call.Value != writeRecv {
+			otherLen = true
+			return false
+		}
+		return true
 	}
 	for _, b := range W.Blocks {
 		iff, ok := b.Instrs[len(b.Instrs)-1].(*ssa.If)
@@ -423,6 +479,9 @@ func checkC08(c *Ctx) {
 		ok2 := skipOp == token.GEQ || skipOp == token.GTR || skipOp == token.EQL
 		r.Check(ok2, "C08.limit-polarity", key, p.IPos(iff), "skips when Len() "+skipOp.String()+" history-size",
 			"recording is skipped when Len() "+skipOp.String()+" history-size: with a configured limit nothing is recorded until a source already exceeds it")
+	}
+	if otherLen {
+		r.Bad("C08.limit-polarity", fnName(W)+":limit-on-other-source", p.Pos(W.Pos()), "the history-size test uses Len() of a source other than the one being written (or sits outside the per-source loop): one source's fill level decides for all of them")
 	}
 	if nCmp == 0 {
 		if readsMax {
